@@ -117,7 +117,7 @@ func paramSubst(h *ssa.Function, args []ssa.Value) func(string) string {
 
 // helperEstablishes: inside h, every return whose result idx may be nil (wantNil) / true (!wantNil) is reachable
 // only across an edge on which g holds (atoms rewritten by subst).
-func helperEstablishes(h *ssa.Function, idx int, wantNil bool, g guardSpec, subst func(string) string, depth int) bool {
+func helperEstablishes(h *ssa.Function, idx int, wantNil bool, okClass bool, g guardSpec, subst func(string) string, depth int) bool {
 	if depth > 2 || len(g.atoms) == 0 {
 		return false
 	}
@@ -139,11 +139,11 @@ func helperEstablishes(h *ssa.Function, idx int, wantNil bool, g guardSpec, subs
 				}
 			}
 			// one more level: the helper delegates to another helper
-			if call, k, okOnTrue, found := testedCall(iff.Cond); found && okOnTrue == truth {
+			if call, k, okOnTrue, found := testedCall(iff.Cond); found {
 				if hh := staticBody(&call.Call); hh != nil && hh != h {
 					inner := paramSubst(hh, call.Call.Args)
 					both := func(s string) string { return subst(inner(s)) }
-					if helperEstablishes(hh, k, isNilResult(hh, k), g, both, depth+1) {
+					if helperEstablishes(hh, k, isNilResult(hh, k), okOnTrue == truth, g, both, depth+1) {
 						removed[edge{b, si}] = true
 					}
 				}
@@ -163,16 +163,22 @@ func helperEstablishes(h *ssa.Function, idx int, wantNil bool, g guardSpec, subs
 		if !ok || idx >= len(ret.Results) {
 			continue
 		}
-		if definitelyNot(ret.Results[idx], wantNil) {
+		if definitelyNot(ret.Results[idx], wantNil, okClass) {
 			continue
 		}
 		matched++
 		if _, reach := limit[b]; reach {
 			// the returned value itself may have been tested on the way (`if x.Err != nil { return x.Err }`)
 			v := Path(ret.Results[idx])
+			// an edge that proves the returned value is in the OTHER class removes this return from consideration
 			spec := AtomSpec{L: v, Op: "!=", R: "nil", Src: v + " != nil"}
-			if !wantNil {
+			switch {
+			case wantNil && !okClass:
+				spec = AtomSpec{L: v, Op: "==", R: "nil", Src: v + " == nil"}
+			case !wantNil && okClass:
 				spec = AtomSpec{L: v, Op: "==", R: "false", Src: v + " == false"}
+			case !wantNil && !okClass:
+				spec = AtomSpec{L: v, Op: "==", R: "true", Src: v + " == true"}
 			}
 			more := map[edge]bool{}
 			for e := range removed {
@@ -207,8 +213,18 @@ func isNilResult(h *ssa.Function, idx int) bool {
 	return !(ok && b.Info()&types.IsBoolean != 0)
 }
 
-// definitelyNot: the returned value certainly is not nil (wantNil) / not true (!wantNil).
-func definitelyNot(v ssa.Value, wantNil bool) bool {
+// definitelyNot: the returned value certainly is not in the class considered — class "ok" = nil (wantNil) / true,
+// class "not ok" = non-nil / false.
+func definitelyNot(v ssa.Value, wantNil bool, okClass bool) bool {
+	if !okClass {
+		if k, isConst := v.(*ssa.Const); isConst {
+			if wantNil {
+				return k.IsNil()
+			}
+			return constString(k) == "true"
+		}
+		return false
+	}
 	switch x := v.(type) {
 	case *ssa.Const:
 		if wantNil {
@@ -258,13 +274,12 @@ func helperGuardEdges(fn *ssa.Function, g guardSpec) (map[edge]bool, []string) {
 			continue
 		}
 		wantNil := isNilResult(h, idx)
-		if helperEstablishes(h, idx, wantNil, g, paramSubst(h, call.Call.Args), 0) {
-			si := 1
-			if okOnTrue {
-				si = 0
+		for si, truth := range []bool{true, false} {
+			// okClass: on this edge the tested result is nil / true
+			if helperEstablishes(h, idx, wantNil, okOnTrue == truth, g, paramSubst(h, call.Call.Args), 0) {
+				out[edge{b, si}] = true
+				descr = append(descr, "in "+funcShortName(h)+": "+g.src)
 			}
-			out[edge{b, si}] = true
-			descr = append(descr, "in "+funcShortName(h)+": "+g.src)
 		}
 	}
 	return out, descr
@@ -312,4 +327,59 @@ func helperEffectSites(fn *ssa.Function, eff Effect) (sites []ssa.Instruction, v
 		}
 	}
 	return
+}
+
+// inlinedEffectSites (E1 reversed): the rule's effect is "call helper h", fn does not call h (any more), but fn
+// contains an instruction for every side-effect signature of h's body (same callees, same stored fields) — h was
+// inlined here; those instructions stand for the call.
+func inlinedEffectSites(p *Program, fn *ssa.Function, eff Effect) (sites []ssa.Instruction, via string) {
+	ct, ok := eff.(CallTo)
+	if !ok || strings.ContainsAny(ct.Glob, "(") {
+		return nil, ""
+	}
+	hs := p.FuncsMatching(ct.Glob)
+	if len(hs) != 1 || hs[0].Blocks == nil || hs[0] == fn {
+		return nil, ""
+	}
+	h := hs[0]
+	sig := func(in ssa.Instruction) string {
+		switch x := in.(type) {
+		case *ssa.Store:
+			if fa, ok := x.Addr.(*ssa.FieldAddr); ok {
+				return "store:" + ownerTypeName(fa.X.Type()) + "." + fieldName(fa.X.Type(), fa.Field)
+			}
+		case *ssa.MapUpdate:
+			return "mapupdate:" + x.Map.Type().String()
+		case ssa.CallInstruction:
+			if _, isB := x.Common().Value.(*ssa.Builtin); isB {
+				return ""
+			}
+			return "call:" + calleeName(x.Common())
+		}
+		return ""
+	}
+	want := map[string]bool{}
+	for _, b := range h.Blocks {
+		for _, in := range b.Instrs {
+			if s := sig(in); s != "" {
+				want[s] = true
+			}
+		}
+	}
+	if len(want) == 0 {
+		return nil, ""
+	}
+	have := map[string]bool{}
+	for _, b := range fn.Blocks {
+		for _, in := range b.Instrs {
+			if s := sig(in); s != "" && want[s] {
+				have[s] = true
+				sites = append(sites, in)
+			}
+		}
+	}
+	if len(have) != len(want) {
+		return nil, ""
+	}
+	return sites, funcShortName(h)
 }
